@@ -450,6 +450,25 @@ def to_kind(m, kind):
 # ---- large symmetric graphs -----------------------------------------------------------------------------------------
 
 @lru_cache(None)
+def hubs(tier="quick"):
+    """centres with 7 (thorough: also 8) neighbours and no descriptor, the neighbours all of one element but not equivalent (one
+    carries H, one F, one is part of a second hub-less chain): the library's colouring enumerates neighbour orders for such atoms"""
+    out = []
+    for k in ((7,) if tier == "quick" else (7, 8)):
+        atoms = [(0, "W")] + [(i, "C") for i in range(1, k + 1)] + [(k + 1, "H"), (k + 2, "F"), (k + 3, "C")]
+        bonds = [(0, i) for i in range(1, k + 1)] + [(1, k + 1), (2, k + 2), (3, k + 3)]
+        out.append(mk(SMG, atoms, bonds))
+        out.append(mk(MG, atoms, bonds))
+        rb = [(0, 1, "FORMED")] + bonds[1:]
+        out.append(mk(SCRG, atoms, rb))
+        out.append(mk(CRG, atoms, rb))
+        # with a descriptor elsewhere in the molecule
+        atoms2 = atoms + [(k + 4, "H"), (k + 5, "F"), (k + 6, "Cl")]
+        bonds2 = bonds + [(k + 3, k + 4), (k + 3, k + 5), (k + 3, k + 6)]
+        out.append(mk(SMG, atoms2, bonds2, astereo=[("Tetrahedral", (k + 3, 3, k + 4, k + 5, k + 6), 1)]))
+    return out
+
+
 def symmetric():
     out = []
     C = lambda n: [(i, "C") for i in range(n)]  # noqa: E731
